@@ -1,5 +1,8 @@
 import Ufw.Props.C12
 import Ufw.Tie.Slip
+import Ufw.Tie.SlipFns.Common
+import Ufw.Tie.SlipFns.ContextInit
+import Ufw.Tie.SlipFns.Encode
 #print axioms Ufw.Props.C12.enc_eq_rfc
 #print axioms Ufw.Props.C12.encode_emits_enc
 #print axioms Ufw.Props.C12.no_inner_delimiter
@@ -17,3 +20,22 @@ import Ufw.Tie.Slip
 #print axioms Ufw.Tie.Slip.const_rfc1055_octets
 #print axioms Ufw.Tie.Slip.const_octets_distinct
 #print axioms Ufw.Tie.Slip.const_worst_case
+#print axioms Ufw.Tie.SlipFns.tr_signExtend
+#print axioms Ufw.Tie.SlipFns.put_zero
+#print axioms Ufw.Tie.SlipFns.put_succ
+#print axioms Ufw.Tie.SlipFns.putAll_model
+#print axioms Ufw.Tie.SlipFns.putAll_full
+#print axioms Ufw.Tie.SlipFns.putAll_ok
+#print axioms Ufw.Tie.SlipFns.gen_rfc1055_context_init
+#print axioms Ufw.Tie.SlipFns.zero_toInt
+#print axioms Ufw.Tie.SlipFns.eof_octet
+#print axioms Ufw.Tie.SlipFns.close_spec
+#print axioms Ufw.Tie.SlipFns.is_esc
+#print axioms Ufw.Tie.SlipFns.is_eof
+#print axioms Ufw.Tie.SlipFns.chunk2
+#print axioms Ufw.Tie.SlipFns.encode_octet_spec
+#print axioms Ufw.Tie.SlipFns.neg_enodata_lt
+#print axioms Ufw.Tie.SlipFns.errOf_enodata
+#print axioms Ufw.Tie.SlipFns.enodata_iff
+#print axioms Ufw.Tie.SlipFns.encode_loop
+#print axioms Ufw.Tie.SlipFns.gen_rfc1055_encode
